@@ -16,7 +16,7 @@ from . import treefacts as tf
 
 ADMISSION = {'ChildNotValid', 'ChildNotFound', 'MaxChildLimitReached', 'OperationNotAllowed', 'InvalidName',
              'MaxLengthReached', 'ValueError'}
-DYNAMIC_VIAS = ('getattr', 'setattr', 'property?', 'delattr', 'fallback', 'format', 'repr', 'str')
+DYNAMIC_VIAS = ('getattr', 'property?', 'delattr', 'fallback', 'format', 'repr', 'str')
 SHADOW = ('the write concerns objects that are still on the shadow (traversal) channel: when promotion to the real '
           'tree is refused nothing that encodes, iterates or validates can see them')
 
@@ -31,6 +31,12 @@ BENIGN = {
      'self._value = datatype_factory(self.datatype, value, self.version, self.validation_level)',
      'self.set_parent_to_traversal()'): SHADOW,
     ('core.SubComponent._set_value', 'self._value = value', 'self.set_parent_to_traversal()'): SHADOW,
+    ('core.ElementProxy.__setattr__', 'setattr(element, name, value)', 'element.set_parent_to_traversal()'):
+        'promotion can only be refused for an element that is still on the shadow channel (for a real child '
+        'set_parent_to_traversal() just clears the link): the value then sits on an element nothing can see',
+    ('core.Message._set_encoding_chars', 'self.msh.msh_1 = msh_1', 'self.msh.msh_2 = msh_2'):
+        'MSH_1 and MSH_2 are built by the same statements (same version and level, ST, one component) after '
+        'check_encoding_chars accepted the set: the segment cannot accept the first and refuse the second',
     ('core.Message.parse_children', 'self.name = message_structure',
      "raise OperationNotAllowed('Cannot assign a message with a different version')"):
         'only an unnamed message gets here; its name is not part of its encoding and it has no children yet',
